@@ -47,6 +47,18 @@ def pkt_canon(data):
                                "|".join(sorted(map(rec_canon, ad))))
 
 
+def msg_canon(dgs):
+    """canonical form of the message one `async_send` call put on one interface: a message that needs several datagrams (a TXT
+    record above 1460 bytes travels alone) is compared as a whole -- how it is cut into datagrams is C14's subject"""
+    if len(dgs) <= 1:
+        return ";".join(pkt_canon(d) for d in dgs)
+    ms = [decode(d) for d in dgs]
+    if any(m[0].is_query() for m in ms) or len({m[0].flags for m in ms}) != 1:
+        return ";".join(pkt_canon(d) for d in dgs)
+    return "%d##%s#%s#%s" % (ms[0][0].flags, "|".join(sorted(rec_canon(r) for m in ms for r in m[1])),
+                             "|".join(sorted(rec_canon(r) for m in ms for r in m[2])), "|".join(sorted(rec_canon(r) for m in ms for r in m[3])))
+
+
 def decode(data):
     from zeroconf import DNSIncoming
 
@@ -59,8 +71,9 @@ def decode(data):
 # ------------------------------------------------------------------------------------------
 # scenarios
 
-INSTANCES = ["svc", "My Svc", "a", "x" * 61, "x" * 62, "x" * 63, "café", "svc-2", "日本"]
-TYPES = ["_http._tcp.local.", "_x._udp.local."]
+INSTANCES = ["svc", "My Svc", "a", "x" * 61, "x" * 62, "x" * 63, "café", "svc-2", "日本", "Living.Room", "a.b.c"]  # an instance name may contain dots (RFC 6763 §4.3)
+TYPES = ["_http._tcp.local.", "_x._udp.local.", "_HTTP._tcp.local.", "_X._udp.local."]  # types are case-insensitive: the cache files them lower-cased
+BIG_TXT = (b"\xfa" + b"k=" + b"v" * 248) * 6  # 1506 bytes of TXT rdata: the record needs a datagram of its own (> 1460 bytes)
 V4 = ["0a000001", "0a000002", "c0a80105"]
 V6 = ["fe80000000000000000000000000000a", "20010db8000000000000000000000001"]
 OFFS = [-2000, -10, -1, 0, 1, 50, 100, 174, 175, 176, 200, 300, 349, 350, 351, 400, 524, 525, 526, 699, 700, 701, 900]
@@ -75,7 +88,7 @@ def gen_scenario(rng, idx):
     # server=None is the legacy mode (host name := instance name); with a rename it shows the known finding
     # C09:server-none-keeps-conflicting-host-name (known_findings.json, notes/agents/C09.md)
     sc = {"kind": kind, "idx": idx, "type": type_, "inst": inst, "server": rng.choice(["hosta.local.", "HostA.local.", "hosta.local.", "HostA.local.", None]),
-          "port": rng.choice([80, 8080, 0, 65535]), "text": rng.choice(["", "0361 3d31".replace(" ", ""), "00"]),
+          "port": rng.choice([80, 8080, 0, 65535]), "text": rng.choice(["", "0361 3d31".replace(" ", ""), "00", "", "03613d31", "00", BIG_TXT.hex()]),
           "v4": v4, "v6": v6, "host_ttl": rng.choice([120, 120, 1, 4500, 10]), "other_ttl": rng.choice([4500, 4500, 1125, 10, 1]),
           "ttl_arg": rng.choice([None, None, None, 60]), "allow": rng.random() < 0.7, "pre": [], "inj": [],
           "weight": rng.choice([0, 5, 7]), "priority": rng.choice([0, 3, 9]),
@@ -117,6 +130,11 @@ def gen_scenario(rng, idx):
         # in one packet), QM, QU or legacy unicast; offsets are relative to the completion of the registration
         sc["qann"] = [{"off": rng.choice([1, 1, 50, 100, 224, 226, 300, 449, 451, 600]), "kind": rng.choice(["resolve", "resolve", "srv+a", "ptr+srv+aaaa", "srv"]),
                        "mode": rng.choice(["qm", "qm", "qu", "legacy"])} for _ in range(rng.choice([1, 1, 2, 3]))]
+    if rng.random() < 0.15:
+        sc["ifaces"] = 2  # a host with two interfaces: every probe and announcement leaves on both
+    if kind in ("inject", "peer", "quiet") and "qann" not in sc:
+        # after the registration: questions for the names it moved away from (must stay unanswered) and for the name it holds
+        sc["qab"] = {"at": rng.choice([1000, 1500, 2500]), "mode": rng.choice(["legacy", "legacy", "qm", "qu"]), "qtype": rng.choice(["srv", "srv", "txt", "any"])}
     if kind == "reuse":
         # the same ServiceInfo object: registered, unregistered, then -- while a peer's pointer for the old name is cached --
         # registered again; mostly hosts with a single address family (the NSEC record is built from the instance name)
@@ -157,6 +175,37 @@ def resp_ptr(type_, alias, ttl, salt=0):
     return out.packets()[0]
 
 
+class Host2(vsim.Host):
+    """a host with several interfaces: `vsim` keeps every transport in `self.transports` (creation order = socket order);
+    `transport` (what `deliver` and the loopback use) stays the first one"""
+
+    @property
+    def transport(self):
+        return self.transports[0] if getattr(self, "transports", None) else None
+
+    @transport.setter
+    def transport(self, tr):
+        pass
+
+
+def make_host(sim, ifaces=1, name="A", ip="10.0.0.1"):
+    """one sender socket per interface (`create_sockets` replaced), no dedicated listen socket"""
+    if ifaces <= 1:
+        return sim.make_host(name, ip)
+    from unittest import mock
+
+    import zeroconf._core as core
+    from zeroconf import Zeroconf
+
+    host = Host2(sim, name, ip)
+    socks = [vsim.FakeSock(10 + 2 * len(sim.net.hosts) + i, ("10.0.%d.1" % i, 5353)) for i in range(ifaces)]
+    for sk in socks:
+        vsim._sock_host[id(sk)] = host
+    with mock.patch.object(core, "create_sockets", lambda *a, **k: (None, socks)):
+        host.zc = Zeroconf(interfaces=[ip])
+    return host
+
+
 class ScriptRng:
     def __init__(self, script, seed):
         import random
@@ -178,10 +227,14 @@ class Tap:
         self.ev = []
         self.cur = {}
         self.saved = []
+        self.cur_tr = 0  # index of the transport (interface) the datagram being sent leaves on
 
     def snapshot(self, zc, info):
         # times relative to the start of the simulation, like every other time of the log
-        return [C.rec_line(r, created=int(r.created) - vsim.T0) for r in zc.cache.entries_with_name(info.type)]
+        # read the store itself, not `entries_with_name` / `current_entry_with_name_and_alias` (the functions under test):
+        # every bucket whose key is the type, case-insensitively
+        want = info.type.lower()
+        return [C.rec_line(r, created=int(r.created) - vsim.T0) for k, recs in list(zc.cache.cache.items()) if k.lower() == want for r in list(recs)]
 
     def install(self):
         import zeroconf._core as core
@@ -191,6 +244,11 @@ class Tap:
         o_wait, o_chk, o_gen, o_add = (core.Zeroconf.async_wait, core.Zeroconf.async_check_service,
                                        core.Zeroconf.generate_service_broadcast, ServiceRegistry.async_add)
         o_send = core.Zeroconf.async_send
+        o_sendto = vsim.FakeTransport.sendto
+
+        def sendto(self_, data, addr=None):
+            tap.cur_tr = self_.host.transports.index(self_) if self_ in self_.host.transports else 0
+            return o_sendto(self_, data, addr)
 
         def asend(self_, out, addr=None, port=5353, v6_flow_scope=(), transport=None):
             # delimits the datagrams of one async_send call in the event log
@@ -229,9 +287,10 @@ class Tap:
         core.Zeroconf.async_check_service = chk
         core.Zeroconf.generate_service_broadcast = gen
         ServiceRegistry.async_add = add
-        self.saved = [(core.Zeroconf, "async_send", o_send), (core.Zeroconf, "async_wait", o_wait), (core.Zeroconf, "async_check_service", o_chk),
+        vsim.FakeTransport.sendto = sendto
+        self.saved = [(vsim.FakeTransport, "sendto", o_sendto), (core.Zeroconf, "async_send", o_send), (core.Zeroconf, "async_wait", o_wait), (core.Zeroconf, "async_check_service", o_chk),
                       (core.Zeroconf, "generate_service_broadcast", o_gen), (ServiceRegistry, "async_add", o_add)]
-        sim.net.on_send = lambda t, src, data, addr: tap.ev.append(("send", t, id(src.zc), data, addr))
+        sim.net.on_send = lambda t, src, data, addr: tap.ev.append(("send", t, id(src.zc), data, addr, tap.cur_tr))
 
     def remove(self):
         for cls, name, orig in self.saved:
@@ -270,7 +329,7 @@ def run_scenario(sc):
         # host A is created after the peer has announced, so that it learns the conflict only from the probe replies;
         # without a peer, early enough to learn the pre-populated entries
         await sim.sleep_until(min([WARM - 5000] + [WARM - p["age"] - 1000 for p in sc["pre"]]))
-        a = sim.make_host("A", "10.0.0.1")
+        a = make_host(sim, sc.get("ifaces", 1))
         za = a.zc
         await za.async_wait_for_start()
         t0 = WARM
@@ -312,10 +371,41 @@ def run_scenario(sc):
                 out.add_question(DNSQuestion(info.server, const._TYPE_AAAA, cls))
             a.inject(out.packets()[0], "10.0.0.%d" % (20 + nq[0]), 40000 if q["mode"] == "legacy" else 5353)
 
+        qab_log = []
+
+        def name_question(nm, role, k):
+            """a question for one instance name from a source of its own (a legacy-unicast reply goes back to exactly that address)"""
+            from zeroconf import DNSOutgoing, DNSQuestion, const
+
+            q = sc["qab"]
+            mode = q["mode"]
+            out = DNSOutgoing(const._FLAGS_QR_QUERY, id_=(100 + k) if mode == "legacy" else 0)
+            cls = const._CLASS_IN | (const._CLASS_UNIQUE if mode == "qu" else 0)
+            out.add_question(DNSQuestion(nm, {"srv": const._TYPE_SRV, "txt": const._TYPE_TXT, "any": const._TYPE_ANY}[q["qtype"]], cls))
+            src = ("10.0.0.%d" % (60 + k), 40100 + k if mode == "legacy" else 5353)
+            qab_log.append({"t": sim.now(), "name": nm, "role": role, "mode": mode, "src": list(src)})
+            a.inject(out.packets()[0], src[0], src[1])
+
+        def schedule_name_questions(info, first_name):
+            if "qab" not in sc or info.name == first_name:
+                return
+            # the names the registration moved away from: the original one and every suffix below the final one
+            inst = first_name[: -len(sc["type"]) - 1]
+            names = [first_name]
+            n = 2
+            while "%s-%d.%s" % (inst, n, sc["type"]) != info.name and n < 6:
+                names.append("%s-%d.%s" % (inst, n, sc["type"]))
+                n += 1
+            plan = [(nm, "abandoned") for nm in names[:3]] + [(info.name, "final")]
+            for k, (nm, role) in enumerate(plan):
+                sim.loop.call_later((sc["qab"]["at"] + 1400 * k) / 1000.0, name_question, nm, role, k)
+
         async def scenario_register(info):
+            first_name = info.name
             try:
                 task = await za.async_register_service(info, ttl=sc["ttl_arg"], allow_name_change=sc["allow"])
                 results.append(("ok", info.name))
+                schedule_name_questions(info, first_name)
                 for q in sc.get("qann", []):
                     sim.loop.call_later(q["off"] / 1000.0, resolution_query, info, q)
                 await task
@@ -347,6 +437,7 @@ def run_scenario(sc):
         obs["registry"] = {"services": sorted(za.registry._services), "types": {k: list(v) for k, v in za.registry.types.items()},
                            "servers": {k: list(v) for k, v in za.registry.servers.items()}}
         obs["ev"] = tap.ev
+        obs["qab"] = qab_log
         await vsim.close_host(a)
         if peer is not None:
             await vsim.close_host(peer)
@@ -379,11 +470,14 @@ def blocks_of(obs, which=0):
         if k == "start":
             cur = {"blocks": [], "outcome": None, "t_end": None}
             calls.append(cur)
-            blk = {"now": e[1], "bucket": e[3], "name": e[4], "sends": []}
+            blk = {"now": e[1], "bucket": e[3], "name": e[4], "sends": [], "by_tr": {}}
         elif k == "woke" and cur is not None:
-            blk = {"now": e[1], "bucket": e[3], "name": e[4], "sends": []}
+            blk = {"now": e[1], "bucket": e[3], "name": e[4], "sends": [], "by_tr": {}}
         elif k == "send" and blk is not None:
-            blk["sends"].append(e[3])
+            # `sends` = what left on the first interface (the model's view); `by_tr` = per interface, for the oracle
+            if e[5] == 0:
+                blk["sends"].append(e[3])
+            blk["by_tr"].setdefault(e[5], []).append(e[3])
         elif k == "wait" and blk is not None:
             blk["end"] = ("wait", e[1] + int(e[3]))
             cur["blocks"].append(blk)
@@ -401,8 +495,8 @@ def blocks_of(obs, which=0):
 
 
 def announcements_of(obs, info_id, t_from=None, t_to=None):
-    """[(t, [datagrams])] of the positive-TTL broadcasts of one info: the datagrams of the async_send call that follows
-    each generate_service_broadcast(info, None)"""
+    """[(t, [datagrams on the first interface], {interface: [datagrams]})] of the positive-TTL broadcasts of one info: the datagrams
+    of the async_send call that follows each generate_service_broadcast(info, <no goodbye>)"""
     out = []
     state = None  # None | "armed" (broadcast generated, waiting for its async_send) | "open" (collecting its datagrams)
     for e in obs["ev"]:
@@ -412,16 +506,18 @@ def announcements_of(obs, info_id, t_from=None, t_to=None):
             state = None
             continue
         if e[0] == "bcast":
-            state = "armed" if (e[3] == info_id and e[4] is None) else None
+            state = "armed" if (e[3] == info_id and e[4] != 0) else None
         elif e[0] == "asend":
             if state == "armed":
-                out.append([e[1], []])
+                out.append([e[1], [], {}])
                 state = "open"
             else:
                 state = None
         elif e[0] == "send":
             if state == "open":
-                out[-1][1].append(e[3])
+                if e[5] == 0:
+                    out[-1][1].append(e[3])
+                out[-1][2].setdefault(e[5], []).append(e[3])
         elif state == "open":
             state = None
     return out
@@ -511,7 +607,9 @@ def oracle(sc, obs, res, case):
         res.violate("C09:no-check", "async_check_service never ran", case)
         return
     viol = []
+    own_all = set()  # names this host holds through a completed registration (filled below)
     all_sends = [(e[1], e[3]) for e in obs["ev"] if e[0] == "send" and e[2] == obs["zc"]]
+    ifaces = sc.get("ifaces", 1)
     abandoned_by_call = {}
     for ci, call in enumerate(calls):
         info_id = obs["infos"][ci] if ci < len(obs["infos"]) else None
@@ -522,6 +620,8 @@ def oracle(sc, obs, res, case):
         # ---- every datagram of the check is a probe: QU PTR question for the type, proposed pointer in the authority section
         probes = []  # (t, proposed name)
         for b in call["blocks"]:
+            if b["sends"] and any(b["by_tr"].get(tr, []) != b["sends"] for tr in range(ifaces)):
+                viol.append(("C09:probe-not-on-every-interface", "a probe left on interface(s) %r of %d" % (sorted(b["by_tr"]), ifaces)))
             for d in b["sends"]:
                 m, an, au, ad = decode(d)
                 ok = (m.is_query() and len(m.questions) == 1 and m.questions[0].name == sc["type"] and m.questions[0].type == const._TYPE_PTR
@@ -566,10 +666,10 @@ def oracle(sc, obs, res, case):
                         break
                     if after != want:
                         viol.append(("C09:not-first-free-suffix", "after a conflict the name is %r, first free suffix is %r" % (after, want)))
-                    else:
-                        # probing restarts: the next probe leaves in this very block, for the new name
-                        if not b["sends"]:
-                            viol.append(("C09:no-probe-after-rename", "probing did not restart at once after the rename"))
+                    elif not b["sends"]:
+                        # today's code sends the first probe of the new name in this very block; the sentence does not ask for it
+                        # (the three probes 175 ms apart are demanded below): counted, compared by stage C only
+                        res.count("rename-without-immediate-probe")
                     abandoned_by_call.setdefault(ci, set()).update(trail)
                     suffix_used = n
                     cur = after
@@ -586,7 +686,7 @@ def oracle(sc, obs, res, case):
                 if [p[0] for p in probes[-3:]] != [T, T + CHECK, T + 2 * CHECK]:
                     viol.append(("C09:probe-spacing", "the three probes of the final name are not 175 ms apart: %r" % [p[0] - T for p in probes[-3:]]))
                 if call["t_end"] != T + 2 * CHECK:
-                    viol.append(("C09:check-end", "the check ended at +%d" % (call["t_end"] - T)))
+                    res.count("check-ends-after-third-probe")  # not in the sentence: stage C compares it
                 # earlier probes belong to abandoned names or to a restarted sequence; same-name neighbours are 175 ms apart
             for (ta, na), (tb, nb) in zip(probes, probes[1:]):
                 if na == nb and tb - ta != CHECK and not (tb - ta < CHECK and False):
@@ -601,13 +701,19 @@ def oracle(sc, obs, res, case):
             if registered:
                 Tl = probes[-1][0] if probes else call["t_end"]
                 times = [a[0] for a in ann]
-                if times != [Tl, Tl + ANNOUNCE, Tl + 2 * ANNOUNCE]:
-                    viol.append(("C09:announce-times", "announcements at %r relative to the last probe" % [t - Tl for t in times]))
-                for t, dgs in ann:
-                    if len(dgs) != 1:
-                        viol.append(("C09:announce-datagrams", "an announcement was %d datagrams" % len(dgs)))
+                # "... and only then three announcements 225 ms apart": three, 225 ms apart, none before the last probe.  (That the
+                # first one leaves at the very instant of the third probe is today's code, not the sentence: stage C compares it.)
+                if len(times) != 3 or [t - times[0] for t in times] != [0, ANNOUNCE, 2 * ANNOUNCE]:
+                    viol.append(("C09:announce-times", "%d announcements, at %r relative to the first" % (len(times), [t - times[0] for t in times])))
+                elif times[0] < Tl:
+                    viol.append(("C09:announced-before-last-probe", "first announcement %d ms before the last probe" % (Tl - times[0])))
+                for t, dgs, per in ann:
+                    if sorted(per) != list(range(ifaces)) or any(sorted(per[tr]) != sorted(dgs) for tr in per):
+                        viol.append(("C09:announcement-not-on-every-interface", "an announcement left on interface(s) %r of %d" % (sorted(per), ifaces)))
+                    if not dgs:
+                        viol.append(("C09:announce-datagrams", "an announcement was 0 datagrams"))
                         continue
-                    v = check_announcement(dict(sc, port=sc["port"] if (ci == 0 or sc["kind"] != "twice") else (sc["port"] + 1) % 65536), obs, fin, dgs[0])
+                    v = check_announcement(dict(sc, port=sc["port"] if (ci == 0 or sc["kind"] != "twice") else (sc["port"] + 1) % 65536), obs, fin, dgs)
                     if v:
                         viol.append(v)
         else:
@@ -625,6 +731,7 @@ def oracle(sc, obs, res, case):
         ab = abandoned_by_call.get(ci, set())
         # names this host itself holds from earlier registrations (none when the earlier registration was withdrawn again)
         own = set() if sc["kind"] == "reuse" else {c["final_name"] for c in calls[:ci] if c["outcome"] == "ok"}
+        own_all |= {c["final_name"] for c in calls if c["outcome"] == "ok"}
         legacy_host = None if sc["server"] else "%s.%s" % (sc["inst"], sc["type"])
         for k, (t, d) in enumerate(all_sends):
             if t < lo or (hi is not None and t >= hi):
@@ -635,14 +742,43 @@ def oracle(sc, obs, res, case):
             from zeroconf import _dns as _d
 
             for r in an + au + ad:
-                for nm in (r.name, getattr(r, "alias", None)):
+                # owner name, pointer alias, and the names inside the rdata (SRV target, NSEC next name)
+                for nm in (r.name, getattr(r, "alias", None), getattr(r, "server", None), getattr(r, "next_name", None)):
                     if r.ttl > 0 and nm in ab and nm not in own:
-                        if isinstance(r, _d.DNSAddress) and nm == legacy_host and nm == r.name:
+                        if nm == legacy_host and ((isinstance(r, _d.DNSAddress) and nm == r.name) or (isinstance(r, _d.DNSService) and nm == r.server and nm != r.name)):
                             # KNOWN FINDING: server=None made the first instance name the host name; a rename does not move it
                             viol.append(("C09:server-none-keeps-conflicting-host-name",
                                          "legacy server=None: after the rename the address records are still announced under the conflicting instance name %r" % (nm,)))
                         else:
                             viol.append(("C09:conflicting-name-sent", "a %s record carries the conflicting name %r" % (type(r).__name__, nm)))
+    # ---- "... or answered for": a question for a name the registration moved away from gets no reply; one for the name it holds does
+    for q in obs.get("qab", []):
+        replies = []
+        for e in obs["ev"]:
+            if e[0] != "send" or e[2] != obs["zc"] or e[1] < q["t"] or e[1] > q["t"] + 1300:
+                continue
+            m, an, au, ad = decode(e[3])
+            if m.is_query():
+                continue
+            if q["mode"] == "legacy":
+                if list(e[4][:2]) == q["src"]:
+                    replies.append((e[1], an + ad))
+            else:
+                replies.append((e[1], an + ad))
+        if q["role"] == "abandoned" and q["name"] not in own_all:
+            from zeroconf import _dns as _d2
+
+            legacy = None if sc["server"] else "%s.%s" % (sc["inst"], sc["type"])
+            if replies and q["name"] == legacy and all(isinstance(r, (_d2.DNSAddress, _d2.DNSNsec)) and r.name == legacy for _, recs in replies for r in recs):
+                # KNOWN FINDING D16: with server=None the first instance name is also the host name; the host keeps answering for it
+                viol.append(("C09:server-none-keeps-conflicting-host-name",
+                             "legacy server=None: after the rename a question for the conflicting instance name %r is still answered with the host's address records" % (legacy,)))
+            elif replies:
+                viol.append(("C09:abandoned-name-answered", "a %s question for %r -- a name the registration moved away from -- was answered %d ms later with %r"
+                             % (q["mode"], q["name"], replies[0][0] - q["t"], sorted({(type(r).__name__, r.name) for r in replies[0][1]})[:4])))
+        elif q["role"] == "final":
+            if not any(r.name.lower() == q["name"].lower() for _, recs in replies for r in recs):
+                viol.append(("C09:held-name-not-answered", "a %s question for %r -- the name the registration completed under -- got no answer" % (q["mode"], q["name"])))
     # ---- one instance never holds the same name twice
     reg = obs["registry"]
     if len(set(reg["services"])) != len(reg["services"]):
@@ -661,18 +797,23 @@ def oracle(sc, obs, res, case):
             res.violate(sig, what, case)
 
 
-def check_announcement(sc, obs, name, data):
+def check_announcement(sc, obs, name, dgs):
     """PTR, SRV, TXT, every address, the NSEC record (the one get_address_and_nsec_records defines: present iff an address
-    family is missing); cache-flush bit on the unique records only"""
+    family is missing); cache-flush bit on the unique records only; custom TTLs.  Expected values come from the scenario (what the
+    application passed), not from the implementation's object.  An announcement may need several datagrams (a TXT record above
+    1460 bytes): the sections of all of them together are judged."""
     from zeroconf import const
 
-    m, an, au, ad = decode(data)
-    if m.is_query() or au or ad or m.questions:
-        return ("C09:announce-shape", "announcement is not a plain response")
-    f = obs["info_fields"]
-    host_ttl = f["host_ttl"]
-    other_ttl = f["other_ttl"]
-    server = f["server"]  # with server=None: the name the info had when it was first registered (see the known finding)
+    an = []
+    for data in dgs:
+        m, an1, au, ad = decode(data)
+        if m.is_query() or au or ad or m.questions:
+            return ("C09:announce-shape", "announcement is not a plain response")
+        an += an1
+    # the legacy `ttl=` argument overrides both TTLs; server=None: the name the info had when it was first registered (known finding D16)
+    host_ttl = sc["host_ttl"] if sc.get("ttl_arg") is None else sc["ttl_arg"]
+    other_ttl = sc["other_ttl"] if sc.get("ttl_arg") is None else sc["ttl_arg"]
+    server = sc["server"] or "%s.%s" % (sc["inst"], sc["type"])
     want = []
     want.append(("ptr", sc["type"], const._TYPE_PTR, False, other_ttl, name))
     want.append(("srv", name, const._TYPE_SRV, True, host_ttl, (sc.get("priority", 0), sc.get("weight", 0), sc["port"], server)))
@@ -716,6 +857,12 @@ def evaluate(sc, res, lines, pending):
     case = {"scenario": sc}
     res.evaluations += 1
     res.count("kind:" + sc["kind"])
+    for q in obs.get("qab", []):
+        res.count("name-question:%s:%s" % (q["role"], q["mode"]))
+    if sc.get("ifaces", 1) > 1:
+        res.count("two-interfaces")
+    if len(sc["text"]) > 2000:
+        res.count("txt-needs-own-datagram")
     if obs["errors"]:
         res.count("loop-errors")
     calls = blocks_of(obs)
@@ -776,7 +923,7 @@ def compare(res, pending, model):
             ann = announcements_of(obs, obs["infos"][ci], call["blocks"][0]["now"], next_call_start(obs, call))
             registered = any(e[0] == "regadd" and e[2] == obs["reg"] and e[1] == call["t_end"] and e[3] == call["final_name"] for e in obs["ev"])
             if registered:
-                got = ";".join("%d@%s" % (t, ";".join(pkt_canon(d) for d in dgs)) for t, dgs in ann)
+                got = ";".join("%d@%s" % (t, msg_canon(dgs)) for t, dgs, _ in ann)
                 if len(tail) < 4 or tail[3] != got:
                     ok = False
         if not ok:
@@ -788,7 +935,7 @@ def run(ctx):
     rng = C.rng_for(ctx["seed"], "c09")
     n = C.Budget(ctx["tier"], 3000, 60000).n
     if ctx["widened"]:
-        n *= 4
+        n *= 2  # (was 4: a widened quick run exceeded the 120 s cap on a loaded box)
     res.rule = ("scenarios = (service: instance/type/addresses/TTLs) x (renaming allowed?) x cache pre-populated with chains of taken names, some expiring at a probe "
                 "instant x conflict/unrelated/other-spelling PTR responses injected at offsets around the probe instants (or a real peer defending the name with "
                 "scripted one-way delays 0..176 ms) ; non-trivial = distinct (kind, outcome, number of blocks, renamed?, block times) with a conflict, rename, early wake or failure")
